@@ -181,9 +181,17 @@ class G:
             if not iat:
                 inner, iat, irt = self.int_prog(depth - 1, 1), [INT], INT
             n = self.length(0)
-            axes = [r.random() < 0.7 for _ in iat]
+            def leafless(t):
+                return t[0] == "unit" or (t[0] == "tup" and all(leafless(x) for x in t[1]))
+
+            # an argument without array leaves has no axis to map (jax.vmap rejects it)
+            axes = [(r.random() < 0.7) and not leafless(t) for t in iat]
             if not any(axes):
-                axes[r.randrange(len(axes))] = True
+                cand = [k for k, t in enumerate(iat) if not leafless(t)]
+                if not cand:
+                    inner, iat, irt = self.int_prog(depth - 1, 1), [INT], INT
+                    axes, cand = [False], [0]
+                axes[r.choice(cand)] = True
             atys = [["arr", n, t] if ax else t for t, ax in zip(iat, axes)]
             return ["vmap", inner, axes], atys, ["arr", n, irt]
         if kind == "scan":
@@ -247,31 +255,46 @@ class G:
         raise ValueError(ty)
 
     def args_for(self, prog, atys):
-        """Argument values respecting the roles of the top-level combinator (flags are 0/1,
-        switch indices in range)."""
+        """Argument values respecting the roles of the combinators the arguments reach directly
+        (mask / or_else flags are 0/1, switch indices in range, masked-iteration flags), also through
+        mask-of-switch nestings and under a vmap."""
+        return ["t"] + self.role_values(prog, atys)
+
+    def role_values(self, prog, atys, n=None):
+        """n = None: scalars; n = k: every value is an array of k elements (we are under a vmap)."""
         r = self.rng
+
+        def pick(hi):
+            return r.randrange(hi) if n is None else ["a"] + [r.randrange(hi) for _ in range(n)]
+
         vals = [self.value(t) for t in atys]
         op = prog[0]
         if op == "switch":
-            vals[0] = r.randrange(len(prog) - 1)
-        elif op in ("mask", "orelse"):
-            vals[0] = r.choice([0, 1, 1])
-        elif op in ("masked_iterate", "masked_iterate_final"):
-            n = atys[1][1]
+            vals[0] = pick(len(prog) - 1)
+        elif op == "orelse":
+            vals[0] = pick(2)
+        elif op == "mask":
+            vals[0] = pick(2) if r.random() < 0.7 else (1 if n is None else ["a"] + [1] * n)
+            inner_t = atys[1:]
+            vals[1:] = self.role_values(prog[1], inner_t, n) if n is None or all(t[0] == "arr" for t in inner_t) else vals[1:]
+        elif op == "repeat":
+            vals = self.role_values(prog[1], atys, n)
+        elif op in ("masked_iterate", "masked_iterate_final") and n is None:
+            m = atys[1][1]
             if r.random() < 0.6:      # the documented usage: a prefix of True flags
-                k = r.randint(0, n)
-                vals[1] = ["a"] + [1] * k + [0] * (n - k)
+                k = r.randint(0, m)
+                vals[1] = ["a"] + [1] * k + [0] * (m - k)
             else:
-                vals[1] = ["a"] + [r.choice([0, 1]) for _ in range(n)]
-        elif op == "vmap" and prog[1][0] in ("mask", "switch", "orelse"):
+                vals[1] = ["a"] + [r.choice([0, 1]) for _ in range(m)]
+        elif op == "vmap" and n is None and prog[1][0] in ("mask", "switch", "orelse"):
             inner = prog[1]
             if prog[2][0]:
-                n = atys[0][1]
+                m = atys[0][1]
                 hi = (len(inner) - 1) if inner[0] == "switch" else 2
-                vals[0] = ["a"] + [r.randrange(hi) for _ in range(n)]
+                vals[0] = ["a"] + [r.randrange(hi) for _ in range(m)]
             else:
                 vals[0] = r.randrange((len(inner) - 1) if inner[0] == "switch" else 2)
-        return ["t"] + vals
+        return vals
 
     # ------------------------------------------------------------------ constraints and ops
     def constraint(self, universe, coverage=None, masked=0.0, bogus=0.0):
